@@ -1,6 +1,5 @@
 """C02 — expression tables equal the documented weighting of reported read assignments."""
 import os
-import re
 import shutil
 from collections import defaultdict
 from decimal import Decimal
@@ -9,22 +8,36 @@ from types import SimpleNamespace
 
 import vlib
 from gen import counts as G
+from props import C02_tables as TB
 
 ID = "C02"
-PROPS = ["IsoVerif/Props/C02.lean", "IsoVerif/Props/C02Merge.lean", "IsoVerif/Props/C02Forward.lean"]
-TARGETS = ["IsoVerif.Props.C02", "IsoVerif.Props.C02Merge", "IsoVerif.Props.C02Forward"]
-GEN_DEPS = ["Enums", "EventClasses", "Strategies", "CounterTables", "Weights"]
+PROPS = ["IsoVerif/Props/C02.lean", "IsoVerif/Props/C02Merge.lean", "IsoVerif/Props/C02Forward.lean",
+         "IsoVerif/Props/C02MergeOrder.lean", "IsoVerif/Props/C02Combine.lean", "IsoVerif/Props/C02Grouped.lean"]
+TARGETS = ["IsoVerif.Props.C02", "IsoVerif.Props.C02Merge", "IsoVerif.Props.C02Forward",
+           "IsoVerif.Props.C02MergeOrder", "IsoVerif.Props.C02Combine", "IsoVerif.Props.C02Grouped"]
+GEN_DEPS = ["Enums", "EventClasses", "Strategies", "CounterTables", "CombineTables", "Weights", "ReadGroups"]
 LEVEL = "proof"
 RULE = ("weights: exhaustive 5 strategies x 9 assignment types x k in 0..12 (+ large k); single-record histories: exhaustive "
         "9 x 9 type pairs x 8 match shapes x corrected-exon / isoform-intron variants x 5 strategies x 2 extractors on real "
         "counters; seeded random histories (realistic = what assigner + resolver emit, adversarial = any type pair / None ids / "
         "missing intron entries; up to 400 calls incl. raw / unassigned / confirm calls) dumped per chromosome, merged with the "
-        "real merge_counts and converted with the real convert_counts_to_tpm; forward_counts on generated per-gene tables. "
+        "real merge_counts (part files listed in a shuffled chr_ids order, names with equal natural keys included; the model sorts "
+        "the REAL file names with the C06 natural-order model) and converted with the real convert_counts_to_tpm; forward_counts on "
+        "generated per-gene tables; combine_counts: 2-4 experiments over a shared annotation run through the real counters / "
+        "merge_counts / convert_counts_to_tpm and the real src.stats.combine_counts (pandas) + synthetic tables written in the "
+        "generated file format (ids with leading underscores, ids equal to statistics-line names, numeric-looking and non-ASCII ids, "
+        "empty tables), compared cell by cell AND in row order; grouped counters: tagged histories on a real ungrouped + a real "
+        "grouped counter (the CompositeCounter order) vs the C09 counter model fed through the C02 extractor model. "
         "A case is non-trivial when the model returns a non-error value with at least one non-zero count (or a non-empty call "
         "list) and model == implementation; distinct by canonical input")
 TRUSTED = ["hand-written model IsoVerif/Model/Counter.lean of src/long_read_counter.py / file_utils.merge_counts / "
            "forward_counts, tied by differential execution on real counter objects and real files",
-           "natural-sort order of the per-chromosome part files is recomputed in the harness (row order is not part of C02)",
+           "the natural-sort order of the per-chromosome part files is C06's model (Model/Schedule.lean keyLe), applied by the "
+           "driver to the real file names; the outer join of combine_counts is C10's model (Model/Samples.lean), the grouped "
+           "counter is C09's model (Model/C09.lean): imported, tied here by their own C02-side correspondence cases",
+           "Gen/CombineTables.lean (slice constant of transform_counts, join key / kind, the four combine_table calls, the header "
+           "written by format_header, the renaming of the TPM value column, the __unassigned line) is re-extracted on every run "
+           "and cross-checked against the behaviour of the real functions",
            "Gen/CounterTables.lean (statistics-line names written by dump_ungrouped / merge_counts, stop test of "
            "convert_counts_to_tpm, print formats) and Gen/Strategies.lean (strategy flags) are re-extracted from /repo on every run",
            "core Lean only (no Mathlib import in any C02 file)"]
@@ -34,7 +47,13 @@ ASSUMPTIONS = ["Python float sums of 1.0/k are compared with the model's exact r
                "feature ids are non-empty strings that do not start with '#' (read as a header line by merge_files)",
                "a record typed unique at the extractor's level has at most one distinct feature (list(set)[0] is hash-order "
                "otherwise); the assigner and the resolver never produce another shape",
-               "ungrouped counters only (read_groups falsy): grouped tables are property C09"]
+               "combine_counts: feature ids are not in pandas' default NA set ('NA', 'null', 'nan', 'None', 'N/A', '' ...): such an id "
+               "is read as a missing key (finding reported in docs/C02.md); every table lists a feature id once (pandas forms the "
+               "cross product of duplicated keys); printed values have at most 15 significant digits (float round trip of read_csv)",
+               "pandas writes the rows of an outer join sorted by key (code-point order) - behaviour of the installed pandas, "
+               "checked by the correspondence in row order",
+               "grouped counters: the same record stream reaches the ungrouped counter first (CompositeCounter), so a call that "
+               "raises there never reaches the grouped counter"]
 
 STRATEGIES = G.STRATEGIES
 LEVELS = G.LEVELS
@@ -180,40 +199,44 @@ def same_run(mo, io):
     return None
 
 
-def natural_key(s):
-    return [int(t) if t.isdigit() else t.lower() for t in re.split(r"(\d+)", s)]
+def part_file_name(sub, label, chrom, suffix):
+    """the name merge_file_list gives the part file of one chromosome"""
+    return os.path.join(sub, "%s_%s%s_counts.tsv" % (label, chrom, suffix))
 
 
-def impl_merge_tpm(case, d):
+def impl_merge_tpm(case, d, label=LABEL, sub=None, keep=False):
     """per-chromosome real counters -> real dump -> real merge_counts -> real convert_counts_to_tpm.
-    returns dict(parts=[impl run_dump results in merge order], merged=part, usable=reads_for_tpm, tpm=rows, unassigned=)"""
+    The chromosomes are handed to merge_counts in the order of case["parts"] (= chr_ids); nothing is sorted here.
+    returns dict(names=[part file names, chr_ids order], parts=[impl run_dump results, chr_ids order], merged=part,
+    tpm=rows, unassigned=, counts_file=, tpm_file=)"""
     vlib.repo_on_path()
     from src.file_utils import merge_counts
-    sub = os.path.join(d, "m%d" % case["id"])
-    os.makedirs(sub)
+    sub = sub or os.path.join(d, "m%d" % case["id"])
+    os.makedirs(sub, exist_ok=True)
     suffix = ".gene" if case["lvl"] == "gene" else ".transcript"
-    main = make_counter(sub, LABEL + suffix, case["lvl"], case["s"], [], case["output_zeroes"])
-    parts = {}
+    main = make_counter(sub, label + suffix, case["lvl"], case["s"], [], case["output_zeroes"])
+    parts, names = [], []
     for p in case["parts"]:
-        r = impl_run_dump(dict(case, complete=p["complete"], events=p["events"]), sub, "%s_%s%s" % (LABEL, p["chr"], suffix))
+        r = impl_run_dump(dict(case, complete=p["complete"], events=p["events"]), sub, "%s_%s%s" % (label, p["chr"], suffix))
         if vlib.is_err(r):
             return r
-        parts[p["chr"]] = r
+        parts.append(r)
+        names.append(part_file_name(sub, label, p["chr"], suffix))
     chr_ids = [p["chr"] for p in case["parts"]]
-    order = sorted(chr_ids, key=lambda c: natural_key(os.path.join(sub, "%s_%s%s_counts.tsv" % (LABEL, c, suffix))))
     try:
-        merge_counts(main, LABEL, chr_ids, case["unaligned"])
+        merge_counts(main, label, chr_ids, case["unaligned"])
         rows, stats = parse_counts_file(main.output_counts_file_name)
         usable = main.reads_for_tpm
         main.convert_counts_to_tpm(case["norm"])
         trows, un = parse_tpm_file(main.output_tpm_file_name)
     except IMPL_ERRORS as ex:
         return {"error": "error", "exc": type(ex).__name__}
-    left = [fn for fn in os.listdir(sub) if fn.startswith(LABEL + "_")]
-    return {"order": order, "parts": [parts[c] for c in order],
+    left = [fn for fn in os.listdir(sub) if fn.startswith(label + "_")]
+    return {"names": names, "parts": parts,
             "merged": {"rows": rows, "stats": [stats.get("__ambiguous"), stats.get("__no_feature"),
                                                stats.get("__not_aligned"), usable]},
-            "stats_lines": sorted(stats), "tpm": trows, "unassigned": un, "leftover_part_files": left}
+            "stats_lines": sorted(stats), "tpm": trows, "unassigned": un, "leftover_part_files": left,
+            "counts_file": main.output_counts_file_name, "tpm_file": main.output_tpm_file_name}
 
 
 class Recorder:
@@ -294,16 +317,29 @@ def gen_run_cases(ctx):
     return cases
 
 
-CHR_POOL = ["chr1", "chr2", "chr10", "chrX", "chr1_random", "2", "10", "MT", "scaffold_12", "Chr3"]
+# "chr1" / "Chr1" / "chr01" have EQUAL natural keys (case-folded text, digit runs as numbers): ties of the stable sort
+CHR_POOL = ["chr1", "chr2", "chr10", "chrX", "chr1_random", "2", "10", "MT", "scaffold_12", "Chr3", "Chr1", "chr01", "chr9b2"]
 
 
 def gen_merge_cases(ctx, mode_weights=(0.7, 0.3)):
     rng = ctx.rng
     quick = ctx.tier == "quick"
     cases = []
+    # fixed cases first: the Lean witness `tpm_unassigned_negative_witness` (two reads, each ambiguous between three
+    # models: 0.67 + 0.67 + 0.67 > 2 usable reads, so the printed __unassigned value is negative) and the tie of the
+    # natural key of `merge_counts_order_tie_witness` (chr1 / Chr1 listed in both orders)
+    amb3 = [{"k": "raw", "noid": False, "fs": ["T1", "T2", "T3"]}, {"k": "raw", "noid": False, "fs": ["T1", "T2", "T3"]},
+            {"k": "confirm", "fs": ["T1", "T2", "T3"]}]
+    cases.append({"id": 100000, "s": "with_ambiguous", "lvl": "transcript", "output_zeroes": True, "norm": "usable_reads",
+                  "unaligned": 0, "parts": [{"chr": "chr1", "complete": [], "events": amb3}], "kind": "realistic+raw"})
+    one = lambda f: [{"k": "raw", "noid": False, "fs": [f]}, {"k": "confirm", "fs": [f]}]
+    for j, order in enumerate((["chr1", "Chr1"], ["Chr1", "chr1"])):
+        cases.append({"id": 100001 + j, "s": "unique_only", "lvl": "transcript", "output_zeroes": True, "norm": "simple",
+                      "unaligned": 0, "parts": [{"chr": c, "complete": [], "events": one(c + ".T")} for c in order],
+                      "kind": "realistic+raw"})
     for i in range(80 if quick else 1000):
         lvl = rng.choice(LEVELS)
-        chrs = rng.sample(CHR_POOL, rng.randint(1, 5))
+        chrs = rng.sample(CHR_POOL, rng.randint(1, 5))     # rng.sample: an arbitrary (unsorted) chr_ids order
         parts = []
         raw = rng.random() < 0.25
         mode = "realistic" if rng.random() < mode_weights[0] else "adversarial"
@@ -384,14 +420,14 @@ def correspondence(ctx):
         # 3. merge_counts + convert_counts_to_tpm on real files
         mc = gen_merge_cases(ctx)
         impl_res = [impl_merge_tpm(c, d) for c in mc]
-        #   model: parts from the model's own run_dump, merged by the model, TPM by the model from the *real* merged file
+        #   model: parts from the model's own run_dump (chr_ids order); merged by the model from the REAL part tables
+        #   and the REAL part-file names (visiting order = C06 natural order, nothing sorted in the harness);
+        #   TPM by the model from the *real* merged file
         lines, idx = [], []
         for c, io in zip(mc, impl_res):
             if vlib.is_err(io):
                 continue
-            by_chr = {p["chr"]: p for p in c["parts"]}
-            for ch in io["order"]:
-                p = by_chr[ch]
+            for p in c["parts"]:
                 lines.append(vlib.req("C02.run_dump", s=c["s"], lvl=c["lvl"], complete=p["complete"], events=p["events"],
                                       output_zeroes=c["output_zeroes"]))
                 idx.append(c["id"])
@@ -419,16 +455,24 @@ def correspondence(ctx):
                 ctx.disagree("run_dump(part)", strip_case(c), {"why": bad}, None)
                 continue
             keep.append((c, io))
-            lines2.append(vlib.req("C02.merge_counts", parts=[p["part"] for p in io["parts"]], unaligned=c["unaligned"]))
+            lines2.append(vlib.req("C02.merge_counts_named", parts=[[n, p["part"]] for n, p in zip(io["names"], io["parts"])],
+                                   unaligned=c["unaligned"]))
             lines3.append(vlib.req("C02.counts_to_tpm", norm=c["norm"], output_zeroes=c["output_zeroes"],
                                    rows=io["merged"]["rows"], usable=io["merged"]["stats"][3]))
         outs2 = drv.run(lines2)
         outs3 = drv.run(lines3)
         for (c, io), m2, m3 in zip(keep, outs2, outs3):
             ctx.traces_validated += 1
-            if m2 != io["merged"]:
+            if isinstance(m2, dict) and "driver_error" in m2:
+                ctx.disagree("merge_counts", strip_case(c), m2, None)
+                continue
+            if m2["merged"] != io["merged"]:
                 ctx.disagree("merge_counts", strip_case(c), m2, io["merged"])
                 continue
+            if m2["order"] != io["names"]:
+                ctx.count("merge_order_not_chr_ids_order")
+            if len(set(TB.natural_key_text(n) for n in io["names"])) < len(io["names"]):
+                ctx.count("merge_order_with_equal_keys")
             if io["stats_lines"] != ["__ambiguous", "__no_feature", "__not_aligned"] or io["leftover_part_files"]:
                 ctx.disagree("merge_counts", strip_case(c), "three stats lines, part files removed",
                              [io["stats_lines"], io["leftover_part_files"]])
@@ -439,6 +483,8 @@ def correspondence(ctx):
                              {"tpm": [[f, str(v)] for f, v in io["tpm"]], "unassigned": str(io["unassigned"])})
             elif any(r[1] != 0 for r in io["merged"]["rows"]):
                 ctx.mark_nontrivial(["merge_tpm", strip_case(c)])
+        # 3b. growth: generated combine protocol, combine_counts (pandas), grouped counters through the C09 model
+        TB.correspondence(ctx, d)
         # 4. forward_counts
         fc = [G.forward_counts_case(ctx.rng, consistent=ctx.rng.random() < 0.7) for _ in range(300 if ctx.tier == "quick" else 3000)]
         outs = drv.run([vlib.req("C02.forward_counts", **c) for c in fc])
@@ -523,7 +569,7 @@ def recount(events, lvl, strategy):
     """independent recomputation: sums per feature, must-be-nonzero features, stats classes"""
     sums = defaultdict(Fraction)
     must = set()
-    st = {"__ambiguous": 0, "__no_feature": 0, "__not_aligned": 0}
+    st = {"__ambiguous": 0, "__no_feature": 0, "__not_aligned": 0, "__usable": 0}
     for ev in events:
         k = ev["k"]
         if k == "read":
@@ -533,6 +579,7 @@ def recount(events, lvl, strategy):
             elif cls == "no_feature":
                 st["__no_feature"] += 1
             else:
+                st["__usable"] += 1
                 if typ == "ambiguous":
                     st["__ambiguous"] += 1
                 w = doc_weight(strategy, typ, len(fs))
@@ -547,6 +594,7 @@ def recount(events, lvl, strategy):
                 st["__no_feature"] += 1
             else:
                 n = len(ev["fs"])
+                st["__usable"] += 1
                 if n > 1:
                     st["__ambiguous"] += 1
                 w = Fraction(1) if n == 1 else (Fraction(1, n) if strategy in USE_AMB else Fraction(0))
@@ -554,6 +602,7 @@ def recount(events, lvl, strategy):
                     sums[f] += w
         elif k == "unassigned":
             st["__no_feature"] += ev["n"]
+            st["__usable"] += ev["n"]
         elif k == "unaligned":
             st["__not_aligned"] += ev["n"]
     return sums, must, st
@@ -582,7 +631,7 @@ def oracle_merge_case(c, d):
     io = impl_merge_tpm(c, d)
     if vlib.is_err(io):
         return fails
-    sums, must, st = defaultdict(Fraction), set(), {"__ambiguous": 0, "__no_feature": 0, "__not_aligned": 0}
+    sums, must, st = defaultdict(Fraction), set(), {"__ambiguous": 0, "__no_feature": 0, "__not_aligned": 0, "__usable": 0}
     for p in c["parts"]:
         s1, m1, st1 = recount(p["events"], c["lvl"], c["s"])
         for f, v in s1.items():
@@ -608,6 +657,9 @@ def oracle_merge_case(c, d):
     got = io["merged"]["stats"]
     if got[0] != st["__ambiguous"] or got[1] != st["__no_feature"] or got[2] != exp_na:
         fails.append(("stats_lines", "printed %s expected %s" % (got[:3], [st["__ambiguous"], st["__no_feature"], exp_na])))
+    # reads_for_tpm (the denominator of the usable_reads normalisation) = counted records + add_unassigned, over ALL parts
+    if got[3] != st["__usable"]:
+        fails.append(("stats_lines", "reads_for_tpm %s, usable records of the run %s" % (got[3], st["__usable"])))
     fails += tpm_clauses(io["merged"]["rows"], io["tpm"], io["unassigned"], c["norm"], got[3], c["output_zeroes"])
     return fails
 
@@ -643,6 +695,13 @@ def tpm_clauses(count_rows, tpm_rows, unassigned, norm, usable, output_zeroes):
             if abs(v - counts[f] * 10 ** 6 / usable) > q * Fraction(51, 100):
                 fails.append(("tpm_usable", "%s: tpm %s, count %s, usable %s" % (f, float(v), counts[f], usable)))
                 break
+        # the __unassigned line: 10^6 * (1 - sum of the printed counts / usable) when the table has a feature row
+        if unassigned is not None:
+            exp = Fraction(10 ** 6) * (1 - total / usable) if counts else Fraction(0)
+            if abs(Fraction(unassigned) - exp) > q * Fraction(51, 100):
+                fails.append(("tpm_usable", "__unassigned %s, expected 10^6 * (1 - %s / %s) = %s" % (unassigned, total, usable, float(exp))))
+    if unassigned is not None and (norm == "simple" or not usable) and Fraction(unassigned) != 0:
+        fails.append(("tpm_usable", "__unassigned %s under the simple normalisation" % unassigned))
     return fails
 
 
@@ -686,6 +745,8 @@ def oracle(ctx, disagreements, broken):
                     for kind, detail in oracle_merge_case(dict(c, id=30000 + n), d):
                         ctx.fail(kind, {"mode": "inproc", "case": strip_case(c)}, detail)
         ctx.extra["oracle_inproc_cases"] = n
+        # 3b. growth: merge-order independence, combined_* tables, grouped tables - on the real code, no Lean involved
+        TB.oracle(ctx, d, disagreements)
         # 4. the real pipeline on synthetic data
         from props import C02_pipeline as PO
         PO.run(ctx, d, broken)
@@ -740,6 +801,8 @@ def replay(ctx, failure):
         if inp.get("mode") == "inproc":
             fails = oracle_merge_case(dict(inp["case"], id=1), d)
             return any(k == failure["kind"] for k, _ in fails)
+        if inp.get("mode", "").startswith("tables:"):
+            return TB.replay(ctx, failure, d)
         from props import C02_pipeline as PO
         return PO.replay(ctx, failure, d)
     finally:
